@@ -268,6 +268,16 @@ class Engine:
             for v in st.get('inner', []):
                 if v.get('kind') != 'VarDecl': continue
                 init = [c for c in v.get('inner', []) if 'Comment' not in c.get('kind', '')]
+                ic = init[0] if init else None
+                while ic is not None and ic.get('kind') in ('ImplicitCastExpr', 'ParenExpr', 'CStyleCastExpr'): ic = ic['inner'][0]
+                if ic is not None and ic.get('kind') == 'ConditionalOperator' and v.get('storageClass') != 'static' and len([x for x in st.get('inner', []) if x.get('kind') == 'VarDecl']) == 1:
+                    # T x = c ? a : b;  forks like the assignment form
+                    out = []
+                    for q2, t in self.cond_paths(ic['inner'][0], q):
+                        val = self.render(ic['inner'][1 if t else 2], q2)
+                        q2.env[v['name']] = val; q2.events.append(('set', v['name'], val, v))
+                        out += nxt(q2)
+                    return out
                 if v.get('storageClass') == 'static':
                     # a static local keeps its value between calls: its initialiser says nothing about this call
                     if not re.search(r'\[\d*\]', v.get('type', {}).get('qualType', '')): q.env[v['name']] = f"{v['name']}@static"
@@ -277,6 +287,18 @@ class Engine:
                 else:
                     q.env.pop(v['name'], None)
             return nxt(q)
+        if kind == 'BinaryOperator' and st.get('opcode') == '=':
+            # x = c ? a : b;  as a statement is two paths, like  if (c) x = a; else x = b;
+            rc_ = st['inner'][1]
+            while rc_.get('kind') in ('ImplicitCastExpr', 'ParenExpr', 'CStyleCastExpr'): rc_ = rc_['inner'][0]
+            if rc_.get('kind') == 'ConditionalOperator':
+                out = []
+                for q, t in self.cond_paths(rc_['inner'][0], p):
+                    v = self.render(rc_['inner'][1 if t else 2], q)
+                    lv = self.render(st['inner'][0], q, lvalue=True)
+                    q.env[lv] = v; q.events.append(('set', lv, v, st))
+                    out += nxt(q)
+                return out
         if kind == 'IfStmt':
             c = st['inner']; out = []
             for q, t in self.cond_paths(c[0], p):
